@@ -263,7 +263,36 @@ def scripted():
             fails.append({"what": "C15/scripted/reregistered_cell_not_observed", "input": dict(scenario="S4"), "expected": 1, "actual": got})
     except Exception as e:  # noqa: BLE001
         fails.append({"what": "C15/scripted/cell_cannot_be_registered_again_after_its_monitors_were_deleted", "input": dict(scenario="S4: register a, b; delete every monitor of a; del_cell(a); register a again"), "expected": "accepted", "actual": f"{type(e).__name__}: {e}"})
-    return fails, 4
+    # S5  a trainer whose monitors were deregistered and registered again (eval / train cycle) is dropped: its hooks leave
+    #     the layer with it (the finalizer of a re-registered hook is bound to the NEW handles) and the layer keeps stepping
+    try:
+        import gc
+
+        def nhooks(lay_):
+            return sum(len(m_._forward_hooks) + len(m_._forward_pre_hooks) for m_ in lay_.modules())
+
+        lay = layer()
+        h0 = nhooks(lay)
+        tr = STDP(1e-2, -5e-3, 20.0, 15.0)
+        tr.register_cell("a", lay.cells.c1.n)
+        tr.register_cell("b", lay.cells.c2.n)
+        h1 = nhooks(lay)
+        tr.eval()
+        tr.train()
+        lay({"c1": (torch.ones(1, 3),), "c2": (torch.ones(1, 3),)})
+        del tr
+        gc.collect()
+        h2 = nhooks(lay)
+        err = None
+        try:
+            lay({"c1": (torch.ones(1, 3),), "c2": (torch.ones(1, 3),)})
+        except Exception as e:  # noqa: BLE001
+            err = f"{type(e).__name__}: {e}"
+        if h1 <= h0 or h2 != h0 or err:
+            fails.append({"what": "C15/scripted/dropped_trainer_leaves_hooks_after_eval_train_cycle", "input": dict(scenario="S5: register a, b; trainer.eval(); trainer.train(); layer step; drop the trainer; gc.collect(); layer step"), "expected": dict(hooks_before=h0, hooks_after_drop=h0, step="runs"), "actual": dict(hooks_with_trainer=h1, hooks_after_drop=h2, step=err or "runs")})
+    except Exception as e:  # noqa: BLE001
+        fails.append({"what": "C15/scripted/exception", "input": dict(scenario="S5"), "expected": "no exception", "actual": f"{type(e).__name__}: {e}"})
+    return fails, 5
 
 
 def d16():
